@@ -78,33 +78,41 @@ SessionVerdict(o) ==
 \* Per carrier and step: out = the working object after the step (the result of the call / the derived object), both input
 \* objects re-read (after, after_y), and for a call the object that was passed as input re-read (inp_after).
 \* Every call is judged by the single-call law on the contents of its input AS OBSERVED before the call.
+RECURSIVE XAfter(_, _)
+\* the contents of the input object x after the first k steps: the caller's in-place edits of x, in order
+XAfter(o, k) == IF k = 0 THEN o.f
+                ELSE LET prev == XAfter(o, k - 1) IN
+                     IF o.acts[k].a = "edit" THEN Derive(o.acts[k].d, prev, NRows(o.f)) ELSE prev
 PSessionVerdict(o) ==
-    LET x  == o.f
-        y  == o.g
+    LET y  == o.g
         na == Len(o.acts)
         Obj(r, k)  == OutFrame(r.steps[k].out, r.carrier)
-        InOf(r, k) == LET a == o.acts[k] IN IF a.src = "x" THEN x ELSE IF a.src = "y" THEN y ELSE Obj(r, k - 1)
+        InOf(r, k) == LET a == o.acts[k] IN IF a.src = "x" THEN XAfter(o, k - 1) ELSE IF a.src = "y" THEN y ELSE Obj(r, k - 1)
         StepV(r, k) ==
             LET a == o.acts[k]  s == r.steps[k]  g == InOf(r, k) IN
-            IF ~AfterOK(s.after, r.carrier, x) \/ ~AfterOK(s.after_y, r.carrier, y) THEN "input_modified"
+            IF a.a = "edit" /\ ~DeriveOK(a.d, {g}) THEN "malformed_observation"
+            ELSE IF ~AfterOK(s.after, r.carrier, XAfter(o, k)) \/ ~AfterOK(s.after_y, r.carrier, y) THEN "input_modified"
+            ELSE IF a.a = "edit" THEN ""          \* the caller's edit of x: what x holds now has just been judged
             ELSE IF a.a = "der" THEN
                  \* the caller's own action: the object it produced must be what Fill!Derive says (binds the rendering)
-                 LET w == Derive(a.d, g, NRows(x)) IN
+                 LET w == Derive(a.d, g, NRows(o.f)) IN
                  IF ~DeriveOK(a.d, {g}) THEN "malformed_observation"
                  ELSE IF /\ s.out.kind = "val" /\ s.out.dim = DimOf(r.carrier) /\ s.out.cols = w.cols
-                    /\ (IsArr(r.carrier) \/ s.out.rows = w.rows) THEN "" ELSE "derived_input"
+                         /\ (IsArr(r.carrier) \/ s.out.rows = w.rows) THEN "" ELSE "derived_input"
             ELSE LET want == Fillna(g, a.ms, a.lim) IN
                  IF s.inp_after.cols # g.cols \/ (~IsArr(r.carrier) /\ s.inp_after.rows # g.rows) THEN "input_modified"
                  ELSE IF s.out.kind = "exc" THEN "raised"
-                 ELSE IF s.out.dim # DimOf(r.carrier) \/ Len(s.out.cols) # NCols(x) THEN "result_shape"
+                 ELSE IF s.out.dim # DimOf(r.carrier) \/ Len(s.out.cols) # NCols(o.f) THEN "result_shape"
                  ELSE IF IsArr(r.carrier) THEN (IF s.out.cols \in ColsOf(want) THEN "" ELSE "array_result")
                  ELSE IF [rows |-> s.out.rows, cols |-> s.out.cols] \in want THEN "" ELSE "pandas_result"
         FirstBad(r) == LET B == {k \in 1..na : \A q \in 1..(k - 1) : StepV(r, q) = ""} IN
                        IF B = {} THEN "" ELSE StepV(r, MaxS(B))
         bad == SelectSeq(Idx(Len(o.runs)), LAMBDA i : FirstBad(o.runs[i]) # "")
-    IN  IF \/ ~WellFormed(x) \/ ~WellFormed(y) \/ NRows(y) # NRows(x) \/ NCols(y) # NCols(x) \/ Len(o.runs) = 0 \/ na = 0
+    IN  IF \/ ~WellFormed(o.f) \/ ~WellFormed(y) \/ NRows(y) # NRows(o.f) \/ NCols(y) # NCols(o.f) \/ Len(o.runs) = 0 \/ na = 0
            \/ o.acts[1].a # "call" \/ o.acts[1].src = "cur"
            \/ \E i \in 1..Len(o.runs) : Len(o.runs[i].steps) # na
+           \* the working object is what the step before left: a call on it / a derivation of it never follows an edit of x
+           \/ \E k \in 2..na : o.acts[k].src = "cur" /\ o.acts[k - 1].a = "edit"
         THEN "malformed_observation"
         ELSE IF bad # <<>> THEN FirstBad(o.runs[bad[1]])
         ELSE IF \E i, j \in 1..Len(o.runs), k \in 1..na : o.runs[i].steps[k].out.cols # o.runs[j].steps[k].out.cols
